@@ -30,10 +30,14 @@ ASSUMPTIONS = [
     'pair laws only, because numpy makes date == datetime64[D] == datetime64[s] == datetime while date != datetime, and eq agrees with == on plain values by the statement',
     'arrays of different dtype but equal cells: neither outcome is demanded (the statement gives only necessary conditions); near misses change shape, a cell, or the container type',
     'Series names and index names are not part of the claim (index, columns and cells are): two columns cut out of one frame must be equal only when they also carry the same name',
-    'pandas.NaT appears as a scalar and as a cell of datetime64[s] arrays (a copy must be equal, NaT against a date must not); Series / DataFrame CELLS of datetime dtype are not generated',
+    'pandas.NaT appears as a scalar and as a cell of datetime64[s] arrays (a copy must be equal, NaT against a date must not) and as a cell of Series of dtype datetime64[ns] (generated; eq handles them); DataFrame cells are float64 only',
     'NaN / NaT among the index LABELS (float index holding NaN, DatetimeIndex holding NaT) are generated (left out only with PV_C14_EXCLUDE_FIXED=1): finding F32, fixed in /repo, replay replays/C14/F32-*.json; before the fix - '
     'eq(s, s.copy()) is False for s = pd.Series([1., 2.], index=[1., nan]) because _eq.py:76 compares the index through _eq_attrs -> eq(Index, Index), which falls through to the '
-    'elementwise == of _eq.py:94-95 where NaN != NaN; the statement says NaN equals NaN at any depth and a value equals its structural copy. NaN column labels share the root cause and are not generated',
+    'elementwise == of _eq.py:94-95 where NaN != NaN; the statement says NaN equals NaN at any depth and a value equals its structural copy. NaN column labels (float column labels, one of them NaN) share the root cause and are generated under the same switch',
+    'zone-aware stamps: datetime with a fixed-offset tzinfo, zone-aware pandas.Timestamp, and DatetimeIndex labels localised in ONE fixed-offset zone (+05:30 or -03:00, never offset 0) take part in the pair, '
+    'copy / near-miss and session laws; the zone near misses keep the wall clock and drop / add / change the zone, which is another instant. Not demanded either way: a zone-aware index against the naive or '
+    'other-zone index of the SAME instants (eq compares labels through .values, i.e. UTC instants, and says True; pandas says such labels are equal across zones and unequal against naive ones; the statement does not '
+    'speak of zones and DatetimeTZDtype is a pandas extension dtype) - such pairs are not generated. Transitivity (triples, pool_cube) keeps the zone-free universe',
     'session: an operand is changed in place only BETWEEN calls and every call is judged on the content it sees; nothing is demanded about eq leaving its operands untouched beyond that '
     '(later calls on the same objects are judged by the content the harness gave them)',
 ]
@@ -67,8 +71,16 @@ def build(v, env):
         if tag == 'df':
             idx = _index(v[1], env)
             rows = [[build(x, env) for x in row] for row in v[3]]
-            return pd.DataFrame(rows, index=idx, columns=list(v[2]), dtype='float64') if len(v[2]) else pd.DataFrame(index=idx)
+            cols = list(v[2]) if all(isinstance(c, str) for c in v[2]) else pd.Index([build_scalar(c, env) for c in v[2]], dtype='float64')       # float labels, possibly NaN
+            return pd.DataFrame(rows, index=idx, columns=cols, dtype='float64') if len(v[2]) else pd.DataFrame(index=idx)
+        if tag in ('dtz', 'tsz'):       # zone-aware stamps: wall clock (ordinal, seconds) in the fixed-offset zone of v[3] minutes
+            d = mkdt(v[1], v[2]).replace(tzinfo=_zone(v[3]))
+            return d if tag == 'dtz' else pd.Timestamp(d)
     return build_scalar(v, env)
+
+
+def _zone(minutes):
+    return datetime.timezone(datetime.timedelta(minutes=minutes))
 
 
 def _mkdict(tag, d):
@@ -83,7 +95,8 @@ def _index(spec, env=None):
         return pd.RangeIndex(spec[1])
     if spec[0] == 'flt':            # float labels, possibly NaN (only generated behind INCLUDE_NAN_LABELS)
         return pd.Index([build_scalar(o, env) for o in spec[1]], dtype='float64')
-    return pd.DatetimeIndex([pd.NaT if o is None else mkdt(o) for o in spec[1]])    # None = NaT label (only behind INCLUDE_NAN_LABELS)
+    idx = pd.DatetimeIndex([pd.NaT if o is None else mkdt(o) for o in spec[1]])    # None = NaT label (only behind INCLUDE_NAN_LABELS)
+    return idx.tz_localize(_zone(spec[2])) if spec[0] == 'datesz' else idx            # 'datesz': the same wall clocks, zone-aware in a fixed-offset zone
 
 
 # ----------------------------------------------------------------------------- strategies
@@ -109,7 +122,10 @@ _scalar_all = st.one_of(_scalar, _daylike)
 # the wide scalar universe (pairs, copy_near, session): ints beyond 2**53 (python and int64), -0.0, a two-character string
 _wide_extra = st.one_of(st.sampled_from(BIG), st.sampled_from(BIG), st.just(-0.0), st.just('ab'), st.sampled_from(BIG).map(lambda i: ['np', 'int64', i]),
                         st.just(['np', 'float64', -0.0])).map(lambda v: v)      # .map keeps it ONE branch of the union below (about 1 leaf in 25)
-_scalar_wide = st.one_of(_plain_scalar, _plain_scalar, _nan, st.sampled_from([['inf', 1], ['inf', -1]]), _inst, _npsc, st.just(['nat']), _daylike, _wide_extra)
+# zone-aware stamps (datetime with a fixed-offset tzinfo, zone-aware pandas.Timestamp): the wall clock of v[1:3] in a zone v[3] minutes off UTC, never 0
+ZONES = [330, -180]
+_zoned = st.tuples(st.sampled_from(['dtz', 'tsz']), st.integers(D0, D0 + 2), st.sampled_from([0, 3600]), st.sampled_from(ZONES)).map(list)
+_scalar_wide = st.one_of(_plain_scalar, _plain_scalar, _nan, st.sampled_from([['inf', 1], ['inf', -1]]), _inst, _npsc, st.just(['nat']), _daylike, _wide_extra, _zoned)
 
 _SHAPES = [[0], [1], [2], [1, 1], [2, 1], [1, 2], [2, 2], [0, 2], [2, 3], []]
 
@@ -153,9 +169,14 @@ def _pandas(draw, wide=False):
             idx = ['flt', [float(i) for i in range(k)] + [['nan', 0]] + [float(i) for i in range(k + 1, n)]]
         else:
             idx = ['dates', [D0 + i for i in range(k)] + [None] + [D0 + i for i in range(k + 1, n)]]
+    if wide and n and idx[0] == 'dates' and draw(st.integers(0, 3)) == 0:
+        idx = ['datesz', idx[1], draw(st.sampled_from(ZONES))]                 # every label of the index zone-aware, in one zone with a non-zero offset
     cell = st.one_of(st.sampled_from([0.0, 1.0, 2.5, 0.0, 1.0, 2.5, -0.0] if wide else [0.0, 1.0, 2.5]), _nan)
     if draw(st.booleans()):
-        kind = draw(st.sampled_from(['float64', 'float64', 'int64', 'object']))
+        kind = draw(st.sampled_from(['float64', 'float64', 'int64', 'object', 'datetime64[ns]'] if wide else ['float64', 'float64', 'int64', 'object']))
+        if kind == 'datetime64[ns]':
+            stamp = st.integers(D0, D0 + 2).map(lambda o: ['dt', o, 0])
+            return ['series', idx, draw(st.lists(st.one_of(stamp, stamp, stamp, st.just(['nat'])), min_size=n, max_size=n)), kind]
         if kind == 'int64':
             vals = draw(st.lists(st.one_of(st.integers(0, 2), st.sampled_from(BIG)) if wide and draw(st.integers(0, 3)) == 0 else st.integers(0, 2), min_size=n, max_size=n))
         elif kind == 'object':
@@ -164,6 +185,8 @@ def _pandas(draw, wide=False):
             vals = draw(st.lists(cell, min_size=n, max_size=n))
         return ['series', idx, vals, kind]
     cols = draw(st.one_of(st.lists(st.sampled_from(['a', 'b', 'c']), min_size=0, max_size=3, unique=True), st.lists(st.sampled_from(['a', 'a', 'b']), min_size=2, max_size=3)))
+    if wide and INCLUDE_NAN_LABELS and len(set(cols)) == len(cols) and draw(st.integers(0, 2)) == 0:      # float column labels, one of them NaN (frames with duplicate labels are left as they are)
+        cols = draw(st.sampled_from([[['nan', 0]], [0.0, ['nan', 0]], [['nan', 1], 1.0], [0.0, ['nan', 0], 2.0]]))
     rows = [[draw(cell) for _ in cols] for _ in range(n)]
     return ['df', idx, cols, rows]
 
@@ -229,7 +252,7 @@ def has_nan(v):
 def is_plain(v):
     """NaN-free scalars / lists / tuples / exact dicts of python types only (numbers, strings, None, datetime.datetime / date, +-inf)"""
     t = tag(v)
-    if t in ('scalar', 'dt', 'date', 'inf'):
+    if t in ('scalar', 'dt', 'date', 'inf', 'dtz'):
         return True
     if t in ('list', 'tuple'):
         return all(is_plain(x) for x in v[1])
@@ -257,7 +280,16 @@ def _scalar_twins(v):
         return [['dt', v[1], v[2]], ['ts', v[1], v[2]], ['dt64', v[1], v[2], 's'], ['dt64', v[1], v[2], 'us']]
     if t == 'np':
         return [v[2]] + _scalar_twins(v[2])
+    if t in ('dtz', 'tsz'):         # the same instant: the other raw type, and / or written in the other zone
+        return [['dtz' if t == 'tsz' else 'tsz'] + v[1:], _rezone('dtz', v), _rezone('tsz', v)]
     return []
+
+
+def _rezone(t, v):
+    """the instant of the zone-aware stamp v written in the other zone, as raw type t"""
+    off = [z for z in ZONES if z != v[3]][0]
+    total = v[1] * 86400 + v[2] + (off - v[3]) * 60
+    return [t, total // 86400, total % 86400, off]
 
 
 def _different_leaf(v):
@@ -285,6 +317,8 @@ def _different_leaf(v):
         return ['dt64', v[1] + 7, v[2], v[3]]
     if t == 'nat':
         return ['ts', D0, 0]
+    if t in ('dtz', 'tsz'):
+        return [t, v[1] + 7, v[2], v[3]]
     if t == 'np':
         return ['np', v[1], _different_leaf(v[2])] if v[1] not in ('float64', 'float32') or tag(v[2]) != 'nan' else ['np', v[1], 0.0]
     raise ValueError(v)
@@ -343,6 +377,11 @@ def _scalar_wide_mutations(v):
         out.append(('str_as_chars', ['list', list(v)]))
         out.append(('str_as_chars', ['tuple', list(v)]))
         out.append(('str_as_chars', ['arr', '<U2', [len(v)], list(v)]))
+    if t in ('dtz', 'tsz'):             # the same wall clock without a zone / in the other zone: another instant (no zone has offset 0, no two the same offset)
+        out.append(('zone_dropped_same_wall_clock', [t[:2], v[1], v[2]]))
+        out.append(('other_zone_same_wall_clock', [t, v[1], v[2], [z for z in ZONES if z != v[3]][0]]))
+    if t in ('dt', 'ts'):
+        out.append(('zone_added_same_wall_clock', [t + 'z', v[1], v[2], ZONES[(v[1] + v[2]) % 2]]))
     if t == 'scalar' and v is not None and not v:                       # 0, 0.0, -0.0, False, '' against the empty containers
         for e in (['list', []], ['tuple', []], ['dict', []], ['arr', 'float64', [0], []], ['arr', '<U2', [0], []], ['series', ['range', 0], [], 'float64']):
             out.append(('falsy_vs_empty', e))
@@ -359,7 +398,7 @@ def _mutations(v, wide=False):
         for i, c in enumerate(children):
             for kind, m in _mutations(c, wide):
                 out.append((kind, rebuild(i, m)))
-    if t == 'scalar' or t in ('nan', 'inf', 'dt', 'ts', 'date', 'dt64', 'nat', 'np'):
+    if t == 'scalar' or t in ('nan', 'inf', 'dt', 'ts', 'date', 'dt64', 'nat', 'np', 'dtz', 'tsz'):
         out.append(('leaf', _different_leaf(v)))
         out.append(('wrap_list', ['list', [v]]))
         out.append(('wrap_tuple', ['tuple', [v]]))
@@ -432,19 +471,30 @@ def _mutations(v, wide=False):
                     out.append(('cell', ['series', idx, vals[:i] + [c + 3] + vals[i + 1:], dtype]))
                     if wide and _is_big(c) and _float_collision(c) is not None:
                         out.append(('bigint_float_collision', ['series', idx, vals[:i] + [_float_collision(c)] + vals[i + 1:], dtype]))
+                elif dtype == 'datetime64[ns]':
+                    out.append(('cell', ['series', idx, vals[:i] + [['dt', D0 + 9, 0] if tag(c) == 'nat' else ['dt', c[1] + 7, c[2]]] + vals[i + 1:], dtype]))
+                    if tag(c) != 'nat':
+                        out.append(('cell_to_nat', ['series', idx, vals[:i] + [['nat']] + vals[i + 1:], dtype]))
                 else:
                     out.append(('cell', ['series', idx, vals[:i] + ['zz'] + vals[i + 1:], dtype]))
-        out.append(('length', ['series', _grow_index(idx), vals + [1.0 if dtype == 'float64' else 1], dtype]))
+            if wide:
+                out.extend((k, ['series', i2, vals, dtype]) for k, i2 in _zone_index_mutations(idx))
+        out.append(('length', ['series', _grow_index(idx), vals + [1.0 if dtype == 'float64' else ['dt', D0, 0] if dtype == 'datetime64[ns]' else 1], dtype]))
         return out
     if t == 'df':
         idx, cols, rows = v[1], v[2], v[3]
         n = len(rows)
         if n:
             out.append(('index', ['df', _shift_index(idx), cols, rows]))
+            if wide:
+                out.extend((k, ['df', i2, cols, rows]) for k, i2 in _zone_index_mutations(idx))
         if cols:
-            out.append(('columns', ['df', idx, cols[:-1] + [cols[-1] + 'z'], rows]))
+            out.append(('columns', ['df', idx, cols[:-1] + [_other_label(cols[-1])], rows]))
             out.append(('columns_dropped', ['df', idx, cols[:-1], [r[:-1] for r in rows]]))
-            if len(cols) >= 2 and cols[0] != cols[1]:
+            if not isinstance(cols[0], str):
+                for j, c in enumerate(cols):
+                    out.append(('column_label_from_nan' if tag(c) == 'nan' else 'column_label', ['df', idx, cols[:j] + [_other_label(c)] + cols[j + 1:], rows]))
+            if len(cols) >= 2 and not _cell_same(cols[0], cols[1]):
                 out.append(('columns_swapped', ['df', idx, [cols[1], cols[0]] + cols[2:], rows]))
             for i, r in enumerate(rows):
                 for j, c in enumerate(r):
@@ -481,12 +531,26 @@ def _arr_ok(m):
     return True
 
 
+def _other_label(c):
+    """a column label that differs from c (string labels, or float labels where NaN is a label)"""
+    return c + 'z' if isinstance(c, str) else 7.0 if tag(c) == 'nan' else c + 3.5
+
+
+def _zone_index_mutations(idx):
+    """the same wall-clock labels without / with / in another zone: other instants, as no zone has offset 0 and no two zones the same offset"""
+    if idx[0] not in ('dates', 'datesz') or all(o is None for o in idx[1]):
+        return []
+    if idx[0] == 'dates':
+        return [('index_zone_added_same_wall_clock', ['datesz', idx[1], ZONES[len(idx[1]) % 2]])]
+    return [('index_zone_dropped_same_wall_clock', ['dates', idx[1]]), ('index_other_zone_same_wall_clock', ['datesz', idx[1], [z for z in ZONES if z != idx[2]][0]])]
+
+
 def _shift_index(idx):
     if idx[0] == 'range':
         return ['dates', [D0 + i for i in range(idx[1])]]
     if idx[0] == 'flt':
         return ['flt', [50.0 if tag(o) == 'nan' else o + 10.0 for o in idx[1]]]
-    return ['dates', [D0 + 30 if o is None else o + 10 for o in idx[1]]]
+    return [idx[0], [D0 + 30 if o is None else o + 10 for o in idx[1]]] + idx[2:]
 
 
 def _grow_index(idx):
@@ -494,7 +558,7 @@ def _grow_index(idx):
         return ['range', idx[1] + 1]
     if idx[0] == 'flt':
         return ['flt', idx[1] + [99.0]]
-    return ['dates', idx[1] + [max([o for o in idx[1] if o is not None] + [D0]) + 20]]
+    return [idx[0], idx[1] + [max([o for o in idx[1] if o is not None] + [D0]) + 20]] + idx[2:]
 
 
 def _twin(v, pick):
@@ -534,10 +598,18 @@ def _classes(*specs):
             cls.add('nan')
         if has(v, lambda x: tag(x) in ('series', 'df')):
             cls.add('pandas')
-        if has(v, lambda x: tag(x) == 'df' and len(set(x[2])) < len(x[2])):
+        if has(v, lambda x: tag(x) == 'df' and len(set(map(repr, x[2]))) < len(x[2])):
             cls.add('duplicate_column_labels')
-        if has(v, lambda x: tag(x) in ('series', 'df') and x[1][0] == 'dates' and len(set(x[1][1])) < len(x[1][1])):
+        if has(v, lambda x: tag(x) in ('series', 'df') and x[1][0] in ('dates', 'datesz') and len(set(x[1][1])) < len(x[1][1])):
             cls.add('duplicate_index_labels')
+        if has(v, lambda x: tag(x) in ('dtz', 'tsz')):
+            cls.update(['zone_aware_stamp', 'zone_aware_scalar'])
+        if has(v, lambda x: tag(x) in ('series', 'df') and x[1][0] == 'datesz'):
+            cls.update(['zone_aware_stamp', 'zone_aware_index'])
+        if has(v, lambda x: tag(x) == 'df' and any(tag(c) == 'nan' for c in x[2])):
+            cls.add('nan_column_label')
+        if has(v, lambda x: tag(x) == 'series' and x[3] == 'datetime64[ns]'):
+            cls.add('series_of_datetime_cells')
         if has(v, lambda x: tag(x) == 'arr'):
             cls.add('array')
         if has(v, _is_big):
@@ -556,10 +628,24 @@ def _classes(*specs):
     return sorted(cls)
 
 
+def _kind_classes(kind):
+    """class labels of a near-miss kind"""
+    cls = []
+    if kind is None:
+        return cls
+    if kind.startswith('broadcast') or kind in ('str_as_chars', 'falsy_vs_empty', 'wrap_arr_typed', 'wrap_arr_obj'):
+        cls.append('scalar_vs_sequence')
+    if kind.endswith('within_isclose_tolerance'):
+        cls.append('near_within_isclose_tolerance')        # a float leaf / cell moved by a relative 1e-9: a different number that np.isclose / rounding takes for the same
+    if 'zone' in kind:
+        cls.append('near_zone_changed_same_wall_clock')    # the same wall clock with no zone / a zone added / another zone: other instants
+    return cls
+
+
 def _pick_from(ms, prefer):
     """the candidates of the preferred kind when there are any (keeps rare near misses frequent), else all of them"""
     if prefer:
-        sel = [c for c in ms if c[0] == prefer]
+        sel = [c for c in ms if c[0] == prefer or c[0].endswith('_' + prefer) or (prefer == 'zone' and 'zone' in c[0])]
         if sel:
             return sel
     return ms
@@ -600,8 +686,7 @@ def run_pairs(spec):
             cls.append('one_value_in_two_raw_types_inside_container')
     if spec.get('how') == 'redtype' and repr(vx) != repr(vy):
         cls.append('array_same_shape_other_dtype')
-    if kind is not None and (kind.startswith('broadcast') or kind in ('str_as_chars', 'falsy_vs_empty', 'wrap_arr_typed', 'wrap_arr_obj')):
-        cls.append('scalar_vs_sequence')
+    cls.extend(_kind_classes(kind))
     return dict(nt=nt, cls=cls)
 
 
@@ -635,9 +720,7 @@ def run_copy_near(spec):
     sm = short(m, 150)
     check(not _eq('%s, %s' % (sx, sm), x, m), 'eq(%s, %s) is True although they differ (%s)', x, m, kind)
     check(not _eq('%s, %s' % (sm, sx), m, x), 'eq(%s, %s) is True although they differ (%s)', m, x, kind)
-    cls = _classes(vx) + ['near=' + kind] + (['dict_key_order_permuted'] if vr != vx else [])
-    if kind.startswith('broadcast') or kind in ('str_as_chars', 'falsy_vs_empty', 'wrap_arr_typed', 'wrap_arr_obj'):
-        cls.append('scalar_vs_sequence')
+    cls = _classes(vx) + ['near=' + kind] + (['dict_key_order_permuted'] if vr != vx else []) + _kind_classes(kind)
     return dict(nt=tag(vx) in CONT or has_nan(vx), cls=cls)
 
 
@@ -684,7 +767,7 @@ def run_triples(spec):
 
 _large = st.fixed_dictionaries(dict(kind=st.sampled_from(['list', 'tuple', 'arr_f', 'arr_i', 'arr_o', 'arr_2d', 'series', 'df', 'dict', 'list_of_lists']),
                                     n=st.sampled_from([40, 64, 100, 128, 257]), nan_every=st.sampled_from([0, 1, 3, 7]), pos=st.integers(0, 10 ** 6),
-                                    how=st.sampled_from(['cell', 'cell', 'cell_to_nan', 'drop_last'])))
+                                    how=st.sampled_from(['cell', 'cell', 'cell_to_nan', 'drop_last', 'cell_within_isclose_tolerance'])))
 
 
 def _large_spec(kind, n, nan_every, pos=None, how=None):
@@ -703,6 +786,10 @@ def _large_spec(kind, n, nan_every, pos=None, how=None):
             cells = cells[:-1]
         elif how == 'cell_to_nan' and kind != 'arr_i' and not (isinstance(cells[i], list)):
             cells[i] = ['nan', 0]
+        elif how == 'cell_within_isclose_tolerance' and _large_tolerance_applies(kind, nan_every):
+            if isinstance(cells[i], list):          # a NaN cell: its neighbour is a number (NaN sits at every 3rd or 7th place here)
+                i = i + 1 if i + 1 < len(cells) else i - 1
+            cells[i] = cells[i] + max(abs(cells[i]), 1.0) * 1e-9          # a different float, far inside any rtol=1e-5 / atol=1e-8
         else:
             cells[i] = 9.5 if kind != 'arr_i' else 9
     m = len(cells)
@@ -727,6 +814,10 @@ def _large_spec(kind, n, nan_every, pos=None, how=None):
     return ['list', [['list', cells[i:i + 4]] for i in range(0, m, 4)]]
 
 
+def _large_tolerance_applies(kind, nan_every):
+    return kind != 'arr_i' and nan_every != 1         # there is a float cell to move (else the change falls back to 'cell')
+
+
 def run_large(spec):
     vx = _large_spec(spec['kind'], spec['n'], spec['nan_every'])
     vm = _large_spec(spec['kind'], spec['n'], spec['nan_every'], spec['pos'], spec['how'])
@@ -736,7 +827,8 @@ def run_large(spec):
     check(_eq('%s, structural copy' % what, x, c) and _eq('structural copy, %s' % what, c, x), 'eq(x, copy of x) is False for a %s', what)
     check(not _eq('%s, one change (%s)' % (what, spec['how']), x, m) and not _eq('one change, %s' % what, m, x),
           'eq is True for a %s and the same with one change (%s at %s)', what, spec['how'], spec['pos'] % spec['n'])
-    return dict(nt=True, cls=['kind=' + spec['kind'], 'n=%i' % spec['n'], 'nan' if spec['nan_every'] else 'nan_free', 'how=' + spec['how']])
+    tol = spec['how'] == 'cell_within_isclose_tolerance' and _large_tolerance_applies(spec['kind'], spec['nan_every'])
+    return dict(nt=True, cls=['kind=' + spec['kind'], 'n=%i' % spec['n'], 'nan' if spec['nan_every'] else 'nan_free', 'how=' + spec['how']] + (['near_within_isclose_tolerance'] if tol else []))
 
 
 def _redtype(v, pick):
@@ -760,7 +852,8 @@ def _redtype(v, pick):
 
 _arr_values = st.one_of(_arr(_leafy_w, True), _arr(None, True).map(list), _containers(_arr(None, True)))
 # 'prefer' names a rare near-miss kind that is taken whenever x offers it (x holds an int beyond 2**53: the neighbour float64 cannot tell from it)
-_prefer = st.sampled_from([None, None, 'bigint_float_collision'])
+# ... 'within_isclose_tolerance': x holds a float leaf / cell, which is moved by a relative 1e-9; 'zone': x holds a stamp or a date index, whose wall clock is kept and whose zone is dropped / added / changed)
+_prefer = st.sampled_from([None, None, None, 'bigint_float_collision', 'bigint_float_collision', 'bigint_float_collision', 'within_isclose_tolerance', 'zone', 'zone'])
 _pair = st.one_of(
     st.tuples(_value_wide, _value_wide).map(lambda t: dict(x=t[0], y=t[1], mut=None)),
     st.tuples(_value_wide, st.integers(0, 10 ** 6), st.integers(0, 1), _prefer).map(lambda t: dict(x=t[0], y=None, mut=t[1], w=max(t[2], int(t[3] is not None)), prefer=t[3])),
@@ -1034,7 +1127,7 @@ def run_session(spec):
         ms = [c for c in ms if _assignable(vx, c[1])] or ms
     kind, vm = ms[spec['mut'] % len(ms)]
     cls = {'inplace': _session_inplace, 'shared': _session_shared, 'twice': _session_twice}[mode](spec, vx, kind, vm)
-    return dict(nt=tag(vx) in CONT or has_nan(vx) or mode != 'shared', cls=_classes(vx) + cls + ['mode=' + mode, 'near=' + kind])
+    return dict(nt=tag(vx) in CONT or has_nan(vx) or mode != 'shared', cls=_classes(vx) + cls + ['mode=' + mode, 'near=' + kind] + [c for c in _kind_classes(kind) if c != 'scalar_vs_sequence'])
 
 
 @st.composite
@@ -1120,7 +1213,7 @@ def run_pool(spec):
 SUBS = [
     Sub('pairs', lambda tier: _pair, run_pairs, quick=4000, thorough=20000,
         rule='pairs (x, y) over scalars, numpy scalars, timestamps, lists/tuples/dict/Dict/dictattr, arrays (int/float/str/object/datetime64; shapes incl. 0-d, empty, 2-d), '
-             'Series/DataFrames, nested to depth 3, ints beyond 2**53, -0.0, NaT cells; y independent, a one-step mutation of x (incl. scalar vs a longer container filled with it), or a value-equal twin of another raw type. Oracle: never raises, boolean, reflexive, symmetric, '
+             'Series/DataFrames (float / int / object / datetime cells; range, date, zone-aware date, float labels), nested to depth 3, ints beyond 2**53, -0.0, NaT cells, zone-aware datetime / Timestamp; y independent, a one-step mutation of x (incl. scalar vs a longer container filled with it), or a value-equal twin of another raw type. Oracle: never raises, boolean, reflexive, symmetric, '
              '== agreement on plain NaN-free values, in_ agrees with eq, False across container types / scalar-vs-container. non-trivial = a container or NaN involved',
         floor=0.3, class_floors={'pandas': 0.05, 'array': 0.1, 'nan': 0.1, 'equal': 0.03,
                                  'one_value_in_two_raw_types': 0.03, 'one_value_in_two_raw_types_inside_container': 0.009, 'array_same_shape_other_dtype': 0.035,       # class 13
@@ -1129,7 +1222,8 @@ SUBS = [
     Sub('copy_near', lambda tier: _copy_near, run_copy_near, quick=4000, thorough=20000,
         rule='x with a structural copy (fresh NaN objects) must be equal; x with one definite change (leaf, container type, length, key, reshape, wrap, index, columns, cell) '
              'must be unequal, both directions; also an int beyond 2**53 against the neighbour float64 cannot tell from it, a scalar against arrays / Series / frames filled with it, '
-             'a string against its characters, falsy scalars against empty containers. non-trivial = x is a container or holds NaN',
+             'a string against its characters, falsy scalars against empty containers, a float moved by a relative 1e-9 (inside any isclose tolerance), a stamp / date index with the same wall clock and the zone '
+             'dropped / added / changed. non-trivial = x is a container or holds NaN',
         floor=0.3, class_floors={'near=ctype': 0.03, 'near=reshape': 0.01, 'near=leaf': 0.05, 'duplicate_column_labels': 0.01, 'duplicate_index_labels': 0.005,
                                  'int_beyond_2**53': 0.045, 'near=bigint_float_collision': 0.01, 'negative_zero': 0.025, 'nat_in_datetime_array': 0.007,          # class 15
                                  'scalar_vs_sequence': 0.04, 'near=broadcast_series': 0.008, 'near=broadcast_arr': 0.005}),                                      # class 18
@@ -1139,7 +1233,7 @@ SUBS = [
         floor=0.15),
     Sub('large', lambda tier: _large, run_large, quick=400, thorough=3000,
         rule='lists, tuples, arrays (float/int/object, 1-d and 2-d), Series, DataFrames, dicts and lists of lists with 40-257 cells and NaN at every k-th cell: '
-             'eq(x, structural copy) must be True and one changed / NaN-ed / dropped cell must make it False (size-dependent paths)',
+             'eq(x, structural copy) must be True and one changed / NaN-ed / dropped cell, or one cell moved by a relative 1e-9, must make it False (size-dependent paths)',
         floor=0.5),
     Sub('session', lambda tier: _session, run_session, quick=2500, thorough=12000,
         rule='objects built ONCE and asked 2-12 times. inplace: eq(X, Y), eq(Y, X), in_(X, the same list) before / after Y is changed IN PLACE into a near miss (at top level, at depth inside an '
@@ -1157,3 +1251,11 @@ SUBS = [
 if INCLUDE_NAN_LABELS:
     for _sub in SUBS[:2]:
         _sub.class_floors['nan_or_nat_index_label'] = 0.008
+    SUBS[0].class_floors['nan_column_label'], SUBS[1].class_floors['nan_column_label'], SUBS[4].class_floors['nan_column_label'] = 0.005, 0.01, 0.008
+# class 21 (zone-aware stamps: scalars, index labels, the same wall clock with the zone dropped / added / changed), class 27 (a float moved by less than any isclose tolerance), Series of datetime cells
+SUBS[0].class_floors.update({'zone_aware_stamp': 0.02, 'zone_aware_scalar': 0.015, 'zone_aware_index': 0.003, 'series_of_datetime_cells': 0.0015})
+SUBS[1].class_floors.update({'zone_aware_stamp': 0.017, 'zone_aware_scalar': 0.012, 'zone_aware_index': 0.005, 'near_zone_changed_same_wall_clock': 0.005, 'near_within_isclose_tolerance': 0.005,
+                             'series_of_datetime_cells': 0.002})
+SUBS[3].class_floors.update({'near_within_isclose_tolerance': 0.04})
+SUBS[4].class_floors.update({'zone_aware_stamp': 0.013, 'zone_aware_scalar': 0.008, 'zone_aware_index': 0.005, 'near_zone_changed_same_wall_clock': 0.003, 'near_within_isclose_tolerance': 0.003,
+                             'series_of_datetime_cells': 0.0015})
